@@ -228,16 +228,16 @@ Definition of_outcome (o : outcome (list bytes)) (k : list bytes -> sres) : sres
   | OutOfFuel => Crash E_OTHER
   end.
 
-(* the P2PKH family: hash_lookup_solver, then signing_solver with sec_list = [Atom]; _find_signatures is
-   handed the unresolved Atom and raises TypeError as soon as one existing blob parses as a signature *)
+(* the P2PKH family: hash_lookup_solver resolves the key variable, then signing_solver runs with sec_list = [that key]
+   (_find_signatures is handed the solved value of the variable, so a stale existing signature is simply not
+   recognised and gets replaced) *)
 Definition solve_pkh (wit : bool) (h : bytes) (ht : N) (blobs : list bytes) (k : bytes -> bytes -> sres) : sres :=
   match lookup_get db h with
   | None => Unsolved                                          (* SolvingError: can't find public pair *)
   | Some (secret, compressed) =>
     let sec := pub_of secret compressed in
-    if existsb parse_sig_ok blobs then Crash E_TYPE
-    else of_outcome (signing_solver wit (p2pkh_script h) ht 1 [sec] [])
-                    (fun sigs => k (hd [] sigs) sec)
+    of_outcome (signing_solver wit (p2pkh_script h) ht 1 [sec] blobs)
+               (fun sigs => k (hd [] sigs) sec)
   end.
 
 Definition solve_input (pz : puzzle) (ht : N) (script_sig : bytes) (wit : list bytes) : sres :=
